@@ -23,6 +23,55 @@ func init() {
 
 var nonReturning = map[string]bool{"log.Fatal": true, "log.Fatalf": true, "log.Fatalln": true, "os.Exit": true, "log.Panic": true, "log.Panicf": true, "log.Panicln": true}
 
+// the exiting methods of a *log.Logger; they count when the logger is a package-level one of
+// the command built by log.New(os.Stderr, …) and never assigned again
+var loggerFatal = map[string]bool{"log.(*Logger).Fatal": true, "log.(*Logger).Fatalf": true, "log.(*Logger).Fatalln": true, "log.(*Logger).Panic": true, "log.(*Logger).Panicf": true, "log.(*Logger).Panicln": true}
+
+func loggerToStderr(recv ssa.Value) bool {
+	g := loadedGlobal(recv)
+	if g == nil || g.Pkg == nil {
+		return false
+	}
+	n, ok := 0, true
+	for _, m := range g.Pkg.Members {
+		fn, isFn := m.(*ssa.Function)
+		if !isFn {
+			continue
+		}
+		fns := []*ssa.Function{fn}
+		fns = append(fns, fn.AnonFuncs...)
+		for _, f := range fns {
+			allInstrs(f, func(i ssa.Instruction) {
+				switch x := i.(type) {
+				case *ssa.Store:
+					if x.Addr != ssa.Value(g) {
+						// the variable's address stored somewhere: anyone may assign it
+						if x.Val == ssa.Value(g) {
+							ok = false
+						}
+						return
+					}
+					n++
+					call, isCall := x.Val.(*ssa.Call)
+					if !isCall || f.Name() != "init" || stdName(call.Call.StaticCallee()) != "log.New" {
+						ok = false
+						return
+					}
+					if w := loadedGlobal(unwrapConv(call.Call.Args[0])); w == nil || w.Name() != "Stderr" || w.Pkg == nil || w.Pkg.Pkg.Path() != "os" {
+						ok = false
+					}
+				case *ssa.Call:
+					// SetOutput on it redirects it
+					if c := x.Call.StaticCallee(); c != nil && stdName(c) == "log.(*Logger).SetOutput" && len(x.Call.Args) > 0 && loadedGlobal(x.Call.Args[0]) == g {
+						ok = false
+					}
+				}
+			})
+		}
+	}
+	return ok && n == 1
+}
+
 func isNonReturningCall(i ssa.Instruction) (bool, string) {
 	switch x := i.(type) {
 	case *ssa.Panic:
@@ -30,6 +79,9 @@ func isNonReturningCall(i ssa.Instruction) (bool, string) {
 	case *ssa.Call:
 		if f := x.Call.StaticCallee(); f != nil {
 			n := stdName(f)
+			if loggerFatal[n] && len(x.Call.Args) > 0 && loggerToStderr(x.Call.Args[0]) {
+				return true, n
+			}
 			if nonReturning[n] {
 				if n == "os.Exit" {
 					if k, ok := intConst(x.Call.Args[0]); ok && k == 0 {
@@ -160,7 +212,63 @@ func ruleCmd(c *Ctx) {
 					return
 				}
 				verdict, why := false, "the error is never tested"
+				// handed straight to a helper of the command that exits when it is set
 				for _, e := range errs {
+					for _, r := range *e.Referrers() {
+						hc, isCall := r.(*ssa.Call)
+						if !isCall || !(hc.Block() == ci.Block() || (len(ci.Block().Succs) == 1 && ci.Block().Succs[0] == hc.Block())) {
+							continue
+						}
+						g := hc.Call.StaticCallee()
+						if g == nil || g.Pkg != fn.Pkg || len(g.Blocks) == 0 {
+							continue
+						}
+						// nothing written between the call and the hand-over
+						clean, after := true, false
+						for _, x := range ci.Block().Instrs {
+							if x == ssa.Instruction(ci) {
+								after = true
+								continue
+							}
+							if x == ssa.Instruction(hc) {
+								break
+							}
+							if after {
+								if w, _ := isStdoutWrite(x); w {
+									clean = false
+								}
+							}
+						}
+						if !clean {
+							continue
+						}
+						for ai, a := range hc.Call.Args {
+							if a != e || ai >= len(g.Params) {
+								continue
+							}
+							for _, t := range nilTests(g, g.Params[ai]) {
+								if t.Blk != g.Blocks[0] {
+									continue
+								}
+								if ok, what := blockFatal(t.Blk.Succs[t.NonNilSucc]); ok {
+									entryClean := true
+									for _, x := range g.Blocks[0].Instrs {
+										if w, _ := isStdoutWrite(x); w {
+											entryClean = false
+										}
+									}
+									if entryClean {
+										verdict, why = true, "handed at once to "+fname(g)+", which tests it first thing and calls "+what+" when it is set"
+									}
+								}
+							}
+						}
+					}
+				}
+				for _, e := range errs {
+					if verdict {
+						break
+					}
 					// follow through phis (err is reassigned in loops)
 					vals := map[ssa.Value]bool{e: true}
 					for changed := true; changed; {
@@ -585,6 +693,10 @@ func ruleCmd(c *Ctx) {
 							return
 						}
 						or := uniq(roots(operand, 0))
+						if operand != nil && len(or) == 1 && isStdin(or[0]) && emptyListPrint(call.Block(), applyCall, roots) {
+							// the fold over no patches: the document as it was read
+							return
+						}
 						if operand == nil || len(or) != 1 || or[0] != ssa.Value(phi) {
 							bad = "the printed operand is not the final value of the fold"
 							return
@@ -970,6 +1082,53 @@ func (b *Body) indexIsRangeOverSomeSlice(h *ssa.BasicBlock, idx ssa.Value) bool 
 					return true
 				}
 			}
+		}
+	}
+	return false
+}
+
+// emptyListPrint: blk is reached only when the list of patches the apply loop runs over is
+// empty (a dominating len(list) == 0 fact): what the fold yields then is its start value.
+func emptyListPrint(blk *ssa.BasicBlock, applyCall *ssa.Call, roots func(ssa.Value, int) []ssa.Value) bool {
+	ld, ok := applyCall.Call.Args[0].(*ssa.UnOp)
+	if !ok {
+		return false
+	}
+	ia, ok := ld.X.(*ssa.IndexAddr)
+	if !ok {
+		return false
+	}
+	list := map[ssa.Value]bool{}
+	for _, r := range roots(ia.X, 0) {
+		list[r] = true
+	}
+	for _, f := range dominatingFacts(blk) {
+		bo, ok := f.V.(*ssa.BinOp)
+		if !ok {
+			continue
+		}
+		c, ok := bo.X.(*ssa.Call)
+		if !ok || len(c.Call.Args) != 1 {
+			continue
+		}
+		if bi, ok := c.Call.Value.(*ssa.Builtin); !ok || bi.Name() != "len" {
+			continue
+		}
+		same := false
+		for _, r := range roots(c.Call.Args[0], 0) {
+			if list[r] {
+				same = true
+			}
+		}
+		k, isK := intConst(bo.Y)
+		if !same || !isK {
+			continue
+		}
+		switch {
+		case k == 0 && bo.Op == token.EQL && f.True, k == 0 && bo.Op == token.NEQ && !f.True,
+			k == 0 && bo.Op == token.GTR && !f.True, k == 0 && bo.Op == token.LEQ && f.True,
+			k == 1 && bo.Op == token.LSS && f.True, k == 1 && bo.Op == token.GEQ && !f.True:
+			return true
 		}
 	}
 	return false
